@@ -279,16 +279,12 @@ class Program:
             raise KeyError(f"{pattern}: {len(c)} candidates: {[f.name for f in c][:5]}")
         return c[0]
 
-    def enum_variants(self, name):
-        if name in ENUMS:
-            return ENUMS[name]
-        if name in self._enum_cache:
-            return self._enum_cache[name]
-        res = None
-        pat = re.compile(r"\benum\s+" + re.escape(name) + r"\b[^{;]*\{")
+    def _scan_enums(self):
+        idx = {}
+        pat = re.compile(r"\benum\s+([A-Za-z_][A-Za-z0-9_]*)\b[^{;]*\{")
         for root, dirs, files in os.walk(self.repo):
-            dirs[:] = [d for d in dirs if d not in ("target", ".git", "test", "benches", "docs", "devtools")]
-            for fn in files:
+            dirs[:] = sorted(d for d in dirs if d not in ("target", ".git", "test", "benches", "docs", "devtools"))
+            for fn in sorted(files):
                 if not fn.endswith(".rs"):
                     continue
                 p = os.path.join(root, fn)
@@ -296,27 +292,64 @@ class Program:
                     s = open(p).read()
                 except OSError:
                     continue
-                m = pat.search(s)
-                if m:
+                if "enum " not in s:
+                    continue
+                for m in pat.finditer(s):
                     end = _find_matching(s, m.end() - 1, "{", "}")
+                    if end < 0:
+                        continue
                     body = s[m.end():end]
                     body = re.sub(r"//[^\n]*", "", body)
                     body = re.sub(r"/\*.*?\*/", "", body, flags=re.S)
                     body = re.sub(r"#\[[^\]]*\]", "", body)
                     vs = []
+                    explicit = {}
                     for part in split_top(body, ","):
                         part = part.strip()
                         if not part:
                             continue
-                        mm = re.match(r"([A-Za-z_][A-Za-z0-9_]*)", part)
+                        mm = re.match(r"([A-Za-z_][A-Za-z0-9_]*)\s*(?:=\s*(-?\d+))?", part)
                         if mm:
                             vs.append(mm.group(1))
-                    res = vs
-                    break
-            if res:
-                break
-        self._enum_cache[name] = res
-        return res
+                            if mm.group(2) is not None:
+                                explicit[mm.group(1)] = int(mm.group(2))
+                    if explicit:
+                        d = {}
+                        cur = -1
+                        for v in vs:
+                            cur = explicit.get(v, cur + 1)
+                            d[v] = cur
+                        vs = d
+                    idx.setdefault(m.group(1), []).append((os.path.relpath(p, self.repo), vs))
+        self._enum_index = idx
+
+    def enum_variants(self, name, vname=None, hint_file=None):
+        if name in ENUMS:
+            return ENUMS[name]
+        if not hasattr(self, "_enum_index"):
+            self._scan_enums()
+        defs = self._enum_index.get(name, [])
+        if vname is not None:
+            defs = [d for d in defs if vname in d[1]]
+        if not defs:
+            return None
+        if len(defs) > 1 and hint_file:
+            same = [d for d in defs if d[0] == hint_file]
+            if not same:
+                hd = os.path.dirname(hint_file)
+                same = [d for d in defs if os.path.dirname(d[0]) == hd]
+            if same:
+                defs = same
+        first = defs[0][1]
+        for d in defs[1:]:
+            if d[1] != first:
+                if vname is not None:
+                    i0 = first[vname] if isinstance(first, dict) else first.index(vname)
+                    i1 = d[1][vname] if isinstance(d[1], dict) else d[1].index(vname)
+                    if i0 == i1:
+                        continue
+                raise Unsupported(f"ambiguous enum `{name}` ({[x[0] for x in defs][:4]})")
+        return first
 
 
 # ------------------------------------------------------------------ place/operand parsing
@@ -513,6 +546,14 @@ class Exec:
         self.log = []
         self.top_frame = None
         self.steps = 0
+        self.cur_fn = None
+
+    def cur_file(self):
+        fn = self.cur_fn
+        if fn is None:
+            return None
+        m = re.search(r"([\w/\-\.]+\.rs):\d+:\d+", fn.name)
+        return m.group(1) if m else None
 
     # ---------------------------------------------------------- branching
     def decide(self, cond):
@@ -555,6 +596,7 @@ class Exec:
             fr.locals[loc] = a
         bb = "bb0"
         while True:
+            self.cur_fn = fn
             blk = fn.blocks[bb]
             v = fr.visits.get(bb, 0) + 1
             fr.visits[bb] = v
@@ -614,6 +656,10 @@ class Exec:
             return val.fields[idx]
         if isinstance(val, OpaqueV):
             return self.ctx.fresh_of_type(f"{val.name}.{idx}", ty)
+        if isinstance(val, _Overlay):
+            if idx in val.over:
+                return val.over[idx]
+            return self.ctx.fresh_of_type(f"{val.base.name}.{idx}", ty)
         if isinstance(val, _Down):
             e, vname = val.e, val.variant
             if isinstance(e, EnumV):
@@ -635,7 +681,7 @@ class Exec:
 
     def variant_index(self, enum_ty, vname):
         h = type_head(enum_ty) if enum_ty else None
-        vs = self.prog.enum_variants(h) if h else None
+        vs = self.prog.enum_variants(h, vname, self.cur_file()) if h else None
         if vs is None:
             # try known enums by variant name
             for en, vv in ENUMS.items():
@@ -738,6 +784,24 @@ class Exec:
         m = re.fullmatch(r"'(.)'", c)
         if m:
             return IntV(ord(m.group(1)), "u32")
+        # constant enum/struct expression `Path::Variant(const args)`
+        if c.endswith(")") and "::" in c and not c.startswith("("):
+            k = c.index("(") if "<" not in c else None
+            if k is None:
+                depth = 0
+                for i, ch in enumerate(c):
+                    if ch == "<":
+                        depth += 1
+                    elif ch == ">" and c[i - 1] != "-":
+                        depth -= 1
+                    elif ch == "(" and depth == 0:
+                        k = i
+                        break
+            if k is not None and _find_matching(c, k) == len(c) - 1:
+                path = c[:k]
+                inner = [a for a in split_top(c[k + 1:-1]) if a != ""]
+                vals = tuple(self.constant(fr, a.strip()) for a in inner)
+                return self._struct_or_variant(path, vals, want_ty or "")
         # `<impl>::NAME` / named constant: find a const body by suffix
         f = self.find_const(c, fr)
         if f is not None:
@@ -748,7 +812,7 @@ class Exec:
         if len(segs) >= 2:
             vname = segs[-1]
             ename = re.sub(r"<.*>", "", segs[-2])
-            vs = self.prog.enum_variants(ename)
+            vs = self.prog.enum_variants(ename, vname, self.cur_file())
             if vs and vname in vs:
                 vi = vs[vname] if isinstance(vs, dict) else vs.index(vname)
                 return EnumV(vi, (), ename)
@@ -955,10 +1019,10 @@ class Exec:
             return AggV(fields, dty)
         # enum variant
         ename = dh or (re.sub(r"<.*>$", "", segs[-2]) if len(segs) > 1 else "")
-        vs = self.prog.enum_variants(ename)
+        vs = self.prog.enum_variants(ename, last, self.cur_file())
         if vs is None and len(segs) > 1:
             ename = re.sub(r"<.*>$", "", segs[-2]).strip()
-            vs = self.prog.enum_variants(ename)
+            vs = self.prog.enum_variants(ename, last, self.cur_file())
         if vs is not None and last in vs:
             vi = vs[last] if isinstance(vs, dict) else vs.index(last)
             return EnumV(vi, ((vi, fields),), dty or ename)
